@@ -245,4 +245,38 @@ example : ∃ out, mapPipeline exTree { dropLevel := some 1, chunkSize := 2, nPr
       [7, 3, 9] [0, 1, 2] [1, 0] rfl rfl (by rfl) rfl exTree_wf (exVote_ok _) rfl
       (by decide) (by decide) (by decide) (by decide)
 
+/-- flatten AND drop_level together (`drop_level = l` a non-leaf level of the
+stored tree): the run never fails, returns one record per cell, and every
+record is a root-to-leaf path of the STORED tree; every level above the leaf
+level — the dropped one included — is flagged `directly_assigned = False` and
+carries no runner-ups. -/
+theorem flatten_drop_path {κ} (t0 t' : RawTree) (cfg : Config) (vote : Oracle κ)
+    (l cl ll : Level) (pre post : List Level)
+    (ids : List CellId) (cells : List κ) (order : List Nat)
+    (hdrop : t0.dropLevel l = .ok t') (hs : t0.hierarchy = pre ++ l :: cl :: post)
+    (hleaf : t0.leafLevel = some ll) (hwf0 : wfb t0 = true) (hv : VoteOK t0.flatten vote)
+    (hlen : ids.length = cells.length) (hnd : ids.Nodup)
+    (hproc : 1 ≤ cfg.nProc) (hcs : 1 ≤ cfg.chunkSize)
+    (horder : order.Perm (List.range
+      (chunks cells.length (effChunk cells.length cfg.nProc cfg.chunkSize)).length)) :
+    ∃ out, mapPipeline t0 { cfg with dropLevel := some l, flatten := true } vote ids cells order
+        = .ok out ∧ out.length = cells.length ∧
+      ∀ o ∈ out, ∃ path : Level → Node,
+        (∀ cp ∈ pairsOf t0.hierarchy.reverse,
+          t0.childToParent cp.1 (path cp.1) = some (path cp.2)) ∧
+        ∀ x ∈ t0.hierarchy, path x ∈ t0.nodesAt x ∧
+          ∃ e', o.levels.lookup x = some e' ∧ e'.assignment = path x ∧
+            (x ≠ ll → e'.direct = some false ∧ e'.ru = none) := by
+  rw [mapPipeline_flatten_ignores_drop t0 t' cfg vote l cl pre post ids cells order hdrop hs hwf0 hv
+    hlen hnd hproc hcs horder]
+  exact flatten_path t0 { cfg with dropLevel := none, flatten := true } vote ll ids cells order rfl rfl
+    hleaf hwf0 hv hlen hnd hproc hcs horder
+
+example : ∃ out, mapPipeline exTree { dropLevel := some 1, flatten := true, chunkSize := 2, nProc := 2 }
+    exVote [7, 3, 9] [0, 1, 2] [1, 0] = .ok out ∧ out.length = 3 :=
+  (fun ⟨out, h1, h2, _⟩ => ⟨out, h1, h2⟩) <|
+    flatten_drop_path exTree exDropped { chunkSize := 2, nProc := 2 } exVote 1 2 2 [0] []
+      [7, 3, 9] [0, 1, 2] [1, 0] (by rfl) rfl (by decide) exTree_wf (exVote_ok _) rfl
+      (by decide) (by decide) (by decide) (by decide)
+
 end CTM.C01
